@@ -21,8 +21,12 @@ Section ModeFacts.
     exists st'. split; [exact Hstep|]. split; [exact HP'|].
     intros Hmode.
     destruct o as [o2| |a q|].
-    - destruct o2 as [o|draws len|m len]; [|discriminate Hmode|discriminate Hmode].
-      unfold step3 in Hstep. cbn [lower] in Hstep. rewrite (step2_t_eq K C HC) in Hstep.
+    - destruct o2 as [o|draws len|m len]; [| |discriminate Hmode].
+      2:{ unfold step3 in Hstep. cbn [lower step2_t] in Hstep.
+          destruct (sample_fix_spec K C HC (stream_of draws) len) as (st1 & A & B & _).
+          rewrite A in Hstep. injection Hstep as <-.
+          unfold seq_after3_1. cbn [lower seq_after1]. exact B. }
+      unfold step3 in Hstep. cbn [lower] in Hstep. rewrite (step2_t_eq K C HC) in Hstep by (intros; discriminate).
       cbn [step2] in Hstep. rewrite (step_t_eq K C HC) in Hstep.
       unfold seq_after3_1. cbn [lower seq_after1 last_seq fold_left].
       destruct o as [b q|b q|M|k]; cbn [step op3_ok op2_ok op_typed pad_after1] in *.
